@@ -17,10 +17,13 @@ META = {
     "rule": "seed files = C01 specs saved through the API (0.1-4 KiB); per "
             "seed file: all truncations, all 8*len single-bit flips when "
             "len <= bitflip_complete_max (else a sample), byte "
-            "substitutions, 8x256 header byte values, wrong magic / version "
+            "substitutions, multi-byte splices (insert/delete/duplicate/swap/"
+            "zero a chunk), 8x256 header byte values, wrong magic / version "
             "byte / message version, and one structural fault per class "
             "(dangling or ill-typed reference, duplicated UUID within a "
             "kind / across kinds / across modules / with the IR's UUID, "
+            "any two nodes sharing a UUID, one UUID used three times across "
+            "two modules, two independent structural faults at once, "
             "unknown enum number per enum field, UUID length 0/15/17, empty "
             "one-of, contents longer than size). Non-trivial = the faulted "
             "file differs from the seed; distinct = hash of the file bytes.",
